@@ -33,7 +33,8 @@ class _:
 @klass("twisted.Failure")
 class _:
     external = True
-    fields = {"exc_tag": ("int", False)}
+    # bare: ghost, True when the object is a bare exception instance standing where a Failure is expected
+    fields = {"exc_tag": ("int", False), "bare": ("bool", False)}
 
 
 @klass("twisted.Opaque")
@@ -145,6 +146,7 @@ def deferred_method(eng, d, attr, args, kwargs, fr, node):
         return fire(eng, d, attr, node)
     if attr == 'cancel':
         called = H.heap_read(eng, d, 'called')
+        eng.B.checkpoint(eng, 'fire:cancel#%d' % site_ordinal(eng, node, 'cancel'))
         # unfired: the canceller runs, then the Deferred fires with CancelledError unless the canceller fired it;
         # fired: cancels the Deferred it is waiting on, if any.  Both are excursions into foreign code.
         eng.trace_event('Cancel', d, 'cancel')
@@ -366,7 +368,11 @@ def install(eng):
             tag = e.exc.tag(e.cur_exc.cls)
         else:
             tag = None
-        f = H.alloc(e, 'Failure', {'exc_tag': vint(tag) if tag is not None else e.fresh(INT, 'exctag')})
+        if args and is_ref(args[0], 'Failure'):
+            tagv = H.heap_read(e, args[0], 'exc_tag')          # Failure(exception instance)
+        else:
+            tagv = vint(tag) if tag is not None else e.fresh(INT, 'exctag')
+        f = H.alloc(e, 'Failure', {'exc_tag': tagv, 'bare': vbool(False)})
         return f
 
     def _partial(e, args, kwargs, fr, node):
@@ -458,6 +464,31 @@ def install(eng):
         return vbool(exc_tag_in(e, H.heap_read(e, f, 'exc_tag').t, name))
 
     eng.builtin_names['exc_is'] = PyObj('builtin', b_exc_is)
+
+    def b_ack_ok(e, args, kwargs, fr, node):
+        """ack_ok(result, acks): what a send Deferred may be fired with - None only with acks 0, an error-free
+        ProduceResponse, or a Failure (never a bare exception instance)"""
+        x, acks = args
+        if not isinstance(x, V):
+            return vbool(False)
+        if x.ty == NONE:
+            return vbool(e.num(acks).t == 0)
+        if x.ty == ('struct', 'ProduceResponse'):
+            return vbool(T.struct_field(x, 'error').t == 0)
+        if is_ref(x, 'Failure'):
+            return vbool(z3.Not(H.heap_read(e, x, 'bare').t))
+        if x.ty[0] == 'opt':
+            inner = b_ack_ok(e, [T.opt_val(x), acks], kwargs, fr, node)
+            return vbool(z3.If(T.is_none(x), e.num(acks).t == 0, inner.t))
+        return vbool(False)
+
+    eng.builtin_names['ack_ok'] = PyObj('builtin', b_ack_ok)
+
+    def b_n_calls(e, args, kwargs, fr, node):
+        name = B.fmt_of(e, args[0], node.args[0], fr)
+        return vint(sum(v for k, v in e.callcount.items() if k.endswith('.' + name) or k == name))
+
+    eng.builtin_names['n_calls'] = PyObj('builtin', b_n_calls)
 
     def b_owner(e, args, kwargs, fr, node):
         d = args[0]
